@@ -98,4 +98,8 @@ def run(chk, ctx):
                        "an external function not in the may-panic table and matching the safe table does not panic"]
     pancheck.run_pan(chk, P, L, ROOTS, "run", floor_sites=20, floor_fns=40)
     error_items(chk, P)
+    # "surface as error items": an evaluation error raised inside a loop / while body travels up through the nested
+    # iterators unchanged — the body is drained with `?`, nothing swallows an Err on the way (shared with C01)
+    from . import c01 as _c01
+    _c01.run(chk.only(("AUT:states-classified", "AUT:8:", "AUT:error-edges", "floor:AUT")), ctx)
     chk.not_decided = ["stack depth of deeply nested expressions/loops", "panics inside a user driver"]
